@@ -98,9 +98,9 @@ type IDSpec struct {
 	P int    `json:"p,omitempty"`
 }
 
-func Rank(r int) IDSpec                { return IDSpec{R: mod(r, PoolSize)} }
-func Exact(h uint64, pre int) IDSpec   { return IDSpec{R: -1, H: h, P: pre} }
-func (s IDSpec) IsExact() bool         { return s.R < 0 }
+func Rank(r int) IDSpec              { return IDSpec{R: mod(r, PoolSize)} }
+func Exact(h uint64, pre int) IDSpec { return IDSpec{R: -1, H: h, P: pre} }
+func (s IDSpec) IsExact() bool       { return s.R < 0 }
 
 // ID materialises the id.
 func (s IDSpec) ID() string {
